@@ -104,6 +104,8 @@ pub struct Ctx {
     pub seed: u64,
     pub known: Vec<String>,
     pub replay: Option<(String, Value)>,
+    /// run only the sub-checks whose name contains one of these strings (parallel fan-out)
+    pub only: Vec<String>,
     /// multiply the case counts (for calibration / ad-hoc deep runs)
     pub scale: f64,
     pub violations: Vec<Value>,
@@ -135,6 +137,7 @@ impl Ctx {
             seed,
             known: Vec::new(),
             replay: None,
+            only: Vec::new(),
             scale: 1.0,
             violations: Vec::new(),
             harness_errors: Vec::new(),
@@ -200,6 +203,9 @@ impl Ctx {
         S::Value: Serialize + DeserializeOwned + Clone + std::fmt::Debug,
         F: Fn(&S::Value, &mut CaseInfo) -> Result<(), Fail>,
     {
+        if self.replay.is_none() && !self.only.is_empty() && !self.only.iter().any(|o| sub.contains(o.as_str())) {
+            return;
+        }
         // ---- replay mode: run exactly the stored case of the matching sub-check
         if let Some((rsub, rcase)) = self.replay.clone() {
             if rsub != sub {
@@ -362,6 +368,84 @@ impl Ctx {
         }
     }
 
+    /// Run an explicit list of cases (exhaustive sweeps) through the same kind of checker as `run`.
+    /// No shrinking: the failing element itself is the replay case.
+    pub fn run_list<C, F>(&mut self, sub: &str, cases: Vec<C>, check: F)
+    where
+        C: Serialize + DeserializeOwned + Clone + std::fmt::Debug,
+        F: Fn(&C, &mut CaseInfo) -> Result<(), Fail>,
+    {
+        if self.replay.is_none() && !self.only.is_empty() && !self.only.iter().any(|o| sub.contains(o.as_str())) {
+            return;
+        }
+        if let Some((rsub, rcase)) = self.replay.clone() {
+            if rsub != sub {
+                return;
+            }
+            match serde_json::from_value::<C>(rcase.clone()) {
+                Ok(case) => {
+                    self.write_progress(sub, &rcase);
+                    let mut info = CaseInfo::default();
+                    self.evals += 1;
+                    match catch_unwind(AssertUnwindSafe(|| check(&case, &mut info))) {
+                        Ok(Ok(())) => println!("replay {} {}: case passes", self.prop, sub),
+                        Ok(Err(f)) => {
+                            println!("replay {} {}: FAIL sig={} detail={}", self.prop, sub, f.sig, f.detail);
+                            self.violations.push(json!({"sub": sub, "sig": f.sig, "detail": f.detail,
+                                "config": self.config, "level": self.level, "case": rcase}));
+                        }
+                        Err(_) => self.harness_errors.push(format!("harness panic while replaying {}", sub)),
+                    }
+                }
+                Err(e) => self.harness_errors.push(format!("replay case does not parse for {}: {}", sub, e)),
+            }
+            return;
+        }
+        let t0 = std::time::Instant::now();
+        let total = cases.len();
+        let mut evals = 0u64;
+        let mut nontriv = 0usize;
+        for (i, case) in cases.iter().enumerate() {
+            let v = serde_json::to_value(case).unwrap_or(Value::Null);
+            if self.progress.is_some() {
+                self.write_progress(sub, &v);
+            }
+            let mut info = CaseInfo::default();
+            let r = match catch_unwind(AssertUnwindSafe(|| check(case, &mut info))) {
+                Ok(r) => r,
+                Err(_) => {
+                    self.harness_errors.push(format!("harness panic in {} element {}", sub, i));
+                    return;
+                }
+            };
+            evals += 1;
+            self.evals += 1;
+            for l in &info.labels {
+                *self.classes.entry(format!("{}:{}", sub, l)).or_insert(0) += 1;
+            }
+            for k in &info.known_hits {
+                *self.known_hits.entry(k.clone()).or_insert(0) += 1;
+            }
+            if info.nontrivial {
+                let h = fnv1a(format!("{}|{}|{}", self.cfg_label(), sub, v).as_bytes());
+                if self.seen.insert(h) {
+                    nontriv += 1;
+                }
+            }
+            if i == 0 || i + 1 == total || i == total / 2 {
+                let s = json!({"sub": sub, "config": self.cfg_label(), "nontrivial": info.nontrivial, "labels": info.labels, "case": v});
+                self.add_sample(s);
+            }
+            if let Err(f) = r {
+                if self.violation(sub, f, v) {
+                    break;
+                }
+            }
+        }
+        self.subs.push(json!({"sub": sub, "config": self.cfg_label(), "cases_requested": total, "enumerated": true,
+            "evaluations": evals, "distinct_nontrivial": nontriv, "wall_s": t0.elapsed().as_secs_f64()}));
+    }
+
     /// Record one enumerated (non-generated) evaluation, e.g. an exhaustive sweep element.
     pub fn record_enumerated(&mut self, sub: &str, case: &Value, nontrivial: bool, labels: &[&str]) {
         self.evals += 1;
@@ -409,7 +493,7 @@ impl Ctx {
         let mut missing = Vec::new();
         if self.replay.is_none() && self.violations.is_empty() {
             for rc in &self.required_classes {
-                if self.class_count(rc) == 0 {
+                if self.only.is_empty() && self.class_count(rc) == 0 {
                     missing.push(rc.clone());
                 }
             }
@@ -429,6 +513,7 @@ impl Ctx {
             "known_hits": self.known_hits,
             "harness_errors": self.harness_errors,
             "missing_required_classes": missing,
+            "required_classes": self.required_classes,
             "exhaustive_dimensions": self.exhaustive_dimensions,
             "notes": self.notes,
             "wall_s": self.start.elapsed().as_secs_f64(),
